@@ -101,9 +101,8 @@ Theorem C12_released : forall cfg ops k c, get (run cfg ops) k = Some c ->
   c_leak c = [] /\ (l_freed (c_life c) = true -> p_res (c_proto c) = []).
 Proof. exact released_after_gone. Qed.
 
-(* scaled-screen references (ONE-STEP statement about [connection_gone], not a reachable-state invariant:
-   "reference count of every screen of the chain = number of live records using it" is checked by the
-   oracle on every observation, props/C12.py, not proved): rfbClientConnectionGone gives back exactly the reference the client holds -
+(* scaled-screen references, one step (the reachable-state invariant is C12_refcounts_match_users below):
+   rfbClientConnectionGone gives back exactly the reference the client holds -
    on the scaled screen it had switched to, or on the unscaled one - and touches no other count;
    rfbCloseClient touches none *)
 Theorem C12_scaled_reference_released : forall k s c, s_hung s = false -> live s k = Some c ->
@@ -121,6 +120,32 @@ Example C12_scaled_reference_released_nonvacuous :
   s_scaled (run cfg0 (pre ++ [OPeerClose 0; OPe])) = [(4, 4, 1)]%Z /\ s_ref (run cfg0 (pre ++ [OPeerClose 0; OPe])) = 1%Z /\
   s_scaled (run cfg0 (pre ++ [OShutdown])) = [(4, 4, 0)]%Z /\ s_ref (run cfg0 (pre ++ [OShutdown])) = 0%Z.
 Proof. exact scaled_nonvacuous. Qed.
+
+(* reachable-state invariant of the scaled-screen chain: in EVERY state [run] reaches, the reference count of
+   the unscaled screen equals the number of live records that use it ([cnt uses_un]: not freed, not scaled),
+   the count of every chain entry equals the number of live records scaled to exactly that size
+   ([cnt (uses_sc w h)]), no two entries have the same size, and the size of every live scaled client has an
+   entry.  After rfbShutdownServer (resp. rfbScreenCleanup) every count is 0. *)
+Theorem C12_refcounts_match_users : forall cfg ops,
+  let s := run cfg ops in
+  s_ref s = cnt uses_un (s_conns s) /\
+  (forall w h r, In (w, h, r) (s_scaled s) -> r = cnt (uses_sc w h) (s_conns s)) /\
+  NoDup (keys (s_scaled s)) /\
+  (forall k c, live s k = Some c -> p_scaled (c_proto c) = true ->
+     has_scaled (p_sw (c_proto c)) (p_sh (c_proto c)) (s_scaled s) = true).
+Proof. exact refcounts_match_users_stmt. Qed.
+
+Theorem C12_refcounts_zero_after_shutdown : forall cfg ops,
+  let s := run cfg (ops ++ [OShutdown]) in
+  s_cleaned s = false ->
+  s_ref s = 0%Z /\ forall w h r, In (w, h, r) (s_scaled s) -> r = 0%Z.
+Proof. exact counts_zero_after_shutdown. Qed.
+
+Theorem C12_refcounts_zero_after_cleanup : forall cfg ops,
+  s_cleaned (run cfg ops) = false ->
+  let s := run cfg (ops ++ [OCleanup]) in
+  s_ref s = 0%Z /\ forall w h r, In (w, h, r) (s_scaled s) -> r = 0%Z.
+Proof. exact counts_zero_after_cleanup. Qed.
 
 Theorem C12_close_keeps_references : forall k s,
   s_ref (close_client k s) = s_ref s /\ s_scaled (close_client k s) = s_scaled s
@@ -170,6 +195,28 @@ Proof. exact teardown_frame. Qed.
 Theorem C12_others_untouched_messages : forall k j cur s, j <> k ->
   get (process_normal k cur s) j = get s j /\ get (update_client k s) j = get s j /\ get (reap_one s k) j = get s j.
 Proof. exact message_frame. Qed.
+
+(* step-level frame: an operation directed at connection k (peer bytes, peer close, rfbCloseClient,
+   rfbStartOnHoldClient, rfbRefuseOnHoldClient, rfbSendXvp) leaves the FULL record of every other
+   connection unchanged and keeps every other open client in allFds, not above maxFd; the same for the
+   handshake functions of k that never touch other clients (ProtocolVersion, security-type offer, VNC
+   challenge, authentication response) and for rfbSendXvp / an update of k.  Exceptions, as documented:
+   ClientInit of a non-shared client and the security-type/auth-none path leading to it (C14) may close others;
+   rfbProcessEvents, bell and cut text address all clients. *)
+Theorem C12_step_others_untouched : forall o k j s, directed o = Some k -> j <> k -> get (step s o) j = get s j.
+Proof. exact step_frame. Qed.
+
+Theorem C12_step_others_stay_in_fd_set : forall cfg ops o k j c, directed o = Some k -> j <> k ->
+  get (run cfg ops) j = Some c -> l_freed (c_life c) = false -> l_open (c_life c) = true ->
+  get (run cfg (ops ++ [o])) j = Some c /\
+  In (c_fd c) (s_allfds (run cfg (ops ++ [o]))) /\ (c_fd c <= s_maxfd (run cfg (ops ++ [o])))%Z.
+Proof. exact step_fd_frame. Qed.
+
+Theorem C12_handshake_others_untouched : forall k j m s, j <> k ->
+  get (process_version k s) j = get s j /\ get (auth_new_client k m s) j = get s j /\
+  get (send_challenge k s) j = get s j /\ get (process_auth k m s) j = get s j /\
+  get (send_xvp k s) j = get s j /\ get (send_update k s) j = get s j.
+Proof. exact handshake_frame. Qed.
 
 (* --- regression anchors: the witnesses of the four repaired defects, and a refusal on the
    listening-socket path, end with exactly one close and one gone hook *)
